@@ -97,7 +97,7 @@ func run(c *fw.Ctx) {
 	}
 	sort.Strings(names)
 	c.Bound("workloads", names)
-	kinds := []string{"sentinel", "eof", "unexpected-eof"}
+	kinds := []string{"sentinel", "eof", "unexpected-eof", "temporary"}
 	for _, name := range names {
 		w := workloads()[name]
 		for _, br := range []bool{false, true} {
